@@ -61,7 +61,7 @@ func strs(a [][]int) []string {
 }
 
 func tagList(tags map[string]bool) []string {
-	var l []string
+	l := []string{}
 	for t, v := range tags {
 		if v {
 			l = append(l, t)
